@@ -48,7 +48,10 @@ def check(rep, ctx):
     records = ("attr", nb, "records")
     rets = [p for p in W["paths"] if p.outcome == "return"]
     if not rets:
-        raise AnalysisError("write_new_batch has no returning path")
+        raised = sorted({f"{getattr(q.value.cls, 'name', '?')} at {q.value.attrs.get('__site__', '?')}" for q in W["paths"] if q.outcome == "raise"})
+        rep.check(R_P, False, construct=fn.ref, stmt="write_new_batch never returns",
+                  message=f"no path of write_new_batch returns: every call raises ({'; '.join(raised[:3])})", file=file, line=fn.node.lineno)
+        return
     empties = [p for p in W["paths"] if p.outcome == "raise" and any(f[0][0] in ("ge", "eq") and contains(f[0], ("len", records)) for f in p.facts)]
     time_terms = []
     for p in rets:
